@@ -11,6 +11,7 @@ From Soy Require Import Proofs.RawTextProofs.
 From Soy Require Import Model.Ast Model.Token Model.Lexer Model.Parser Generated.Tables
   Proofs.LexerProofs Proofs.LexBodyText Proofs.LexBodyTop Proofs.ParseBodyText Proofs.BodyTextMain.
 From Soy Require Import Spec.TextBody Proofs.LexTokens Proofs.LexPrintTop Proofs.LexBodyMain Proofs.BodyCmdMain.
+From Soy Require Import Spec.TextMix Proofs.BodyMixMain.
 Open Scope N_scope.
 
 (* The loop of parse/rawtext.go returns exactly the Spec's normalisation, under
@@ -202,6 +203,77 @@ Proof.
     change (normalize false false []) with (@nil N). cbn [app]. apply app_nil_r.
 Qed.
 Print Assumptions C15_literal_exact.
+
+(* ---- body_text_spec: bodies of text, comments, special-character commands and literal blocks ---- *)
+(* For EVERY body  T0 {c1} T1 {c2} ... {cn} Tn  (source: body_src) in which every ci is a special-character command
+   or a {literal} block (cmd_ok, as above) and every stretch Ti consists of plain bytes (no NUL, no brace) and MAY
+   CONTAIN COMMENTS, under the Spec's one condition on their placement (mix_body_ok, Spec/TextMix.v): no "//"
+   comment is still open where a tag begins (line_open = false for every stretch but the last; such a comment
+   would run on through the tag to the end of the line -- C15_ex_line_comment_swallows_tag), and on which the
+   Spec's text is defined (mix_body_out = Some out: every block comment closed, no soydoc opener): the scanner
+   model run on the body as a file (lexText, lexLineComment, lexBlockComment with the look-behind for "//" --
+   at the start of the input a comment, after "}" text --, the tag states, lexLiteral) returns an item list, and
+   the parser model (SoyFile: itemList, textOrTag with its two comment flags whether the neighbour of a piece is a
+   comment, a tag or the end of the input, beginTag's special-character and literal cases, rawtext) run on it under
+   the entry point's own budget returns a list node whose children are all raw-text nodes and whose texts,
+   concatenated, are   body_text true T0 ++ char(c1) ++ body_text false T1 ++ ... :  every stretch cut at its
+   comments, every piece normalised separately with a comment as a flagged end and a tag / the end of the input
+   as an unflagged one.  C15_body_text_spec_partial (no tags) and C15_body_special_chars_spec (no comments) are
+   instances.  What remains outside a theorem: OTHER tags as neighbours of text (print, if, msg ...: their items
+   end a text run the same way, but their parse is not part of this statement) and "{literal }" with spaces. *)
+Theorem C15_body_text_spec : forall inlen lexq unq T0 rest out,
+  mix_body_ok T0 rest -> mix_body_out T0 rest = Some out ->
+  exists items pos nodes st,
+    lex_items is_letter_tbl is_digit_tbl (lex_budget (body_src T0 rest)) false (body_src T0 rest) = Ok items /\
+    po_result (soy_file inlen lexq unq items) = POk (NList pos nodes) st /\
+    Forall is_raw nodes /\ concat (map raw_text_of nodes) = out.
+Proof.
+  intros inlen lexq unq. destruct tables_ascii as [Hl Hd]. destruct tables_eof as [El Ed].
+  exact (body_mix_impl_spec is_letter_tbl is_digit_tbl Hl Hd El Ed inlen lexq unq).
+Qed.
+Print Assumptions C15_body_text_spec.
+
+(* non-vacuity: comments before and after tags, "//" after "}" (text) and at the start of the input (comment), an
+   empty comment, a literal block with comment openers and braces, an open "//" comment in the last stretch *)
+Definition c15_ex_mix : bstr * list seg :=
+  (b "//c" ++ [10] ++ b "a /*c*/",
+   [((b "sp", [32]), b "//t" ++ [10] ++ b " b //c" ++ [10]); ((b "lb", [123]), b "/*x*/ y /**/");
+    ((lit_name (b "//{}"), b "//{}"), b " z //open")]).
+Example C15_ex_body_mix :
+  mix_body_ok (fst c15_ex_mix) (snd c15_ex_mix) /\
+  body_src (fst c15_ex_mix) (snd c15_ex_mix) =
+    b "//c" ++ [10] ++ b "a /*c*/{sp}//t" ++ [10] ++ b " b //c" ++ [10] ++ b "{lb}/*x*/ y /**/{literal}//{}{/literal} z //open" /\
+  mix_body_out (fst c15_ex_mix) (snd c15_ex_mix) = Some (b "a //t b{y//{} z") /\
+  match lex_items is_letter_tbl is_digit_tbl (lex_budget (body_src (fst c15_ex_mix) (snd c15_ex_mix))) false (body_src (fst c15_ex_mix) (snd c15_ex_mix)) with
+  | Ok items =>
+      match po_result (soy_file 0 (fun _ => []) (fun _ => None) items) with
+      | POk (NList _ nodes) _ => Some (concat (map raw_text_of nodes)) = mix_body_out (fst c15_ex_mix) (snd c15_ex_mix)
+      | _ => False
+      end
+  | _ => False
+  end.
+Proof.
+  assert (Hplain : forall s : bstr, forallb (fun c => negb (c =? 0) && negb (c =? 123) && negb (c =? 125)) s = true ->
+                   Forall (fun c => c <> 0 /\ c <> 123 /\ c <> 125) s).
+  { intros s H. apply Forall_forall. intros c Hc. rewrite forallb_forall in H. specialize (H c Hc). lia. }
+  split.
+  { unfold mix_body_ok, c15_ex_mix. cbn [fst snd mix_rest_ok].
+    repeat split; try (apply Hplain; vm_compute; reflexivity); try (intros _; vm_compute; reflexivity); try (intros H; discriminate H).
+    - left. vm_compute. auto 12.
+    - left. vm_compute. auto 12.
+    - right. split; [reflexivity|]. intros r. vm_compute. reflexivity. }
+  split; [vm_compute; reflexivity|]. split; [vm_compute; reflexivity|]. vm_compute. reflexivity.
+Qed.
+
+(* the Spec's condition is needed: a "//" comment that is open where a tag begins runs on through the tag -- the
+   scanner sends ONE comment item for "//x{sp}b", no tag *)
+Example C15_ex_line_comment_swallows_tag :
+  line_open MText true (b "a //x") = true /\
+  match lex_items is_letter_tbl is_digit_tbl (lex_budget (b "a //x{sp}b")) false (b "a //x{sp}b") with
+  | Ok items => map (fun t => (t_typ t, t_val t)) items = [(itemText, b "a"); (itemComment, b "//x{sp}b"); (itemEOF, [])]
+  | _ => False
+  end.
+Proof. split; vm_compute; reflexivity. Qed.
 
 (* non-vacuity: the hypotheses hold of "see http://x y", and scanner + parser models, run by computation on a
    text with both kinds of comment, give the Spec's text *)
